@@ -64,7 +64,26 @@ static inline VecFS *VecVecFS_at(VecVecFS *v, unsigned long i)
   return &v->scratch;
 }
 
-//@struct Pomerol::StatesClassification only=Status,StateSize,IndexSize,StatesContainer,StateBlockIndex
+/* types of the remaining members (used by compute() at the end of this file) */
+struct Operator;
+//@record Pomerol::Symmetrizer::QuantumNumbers => QN ptr
+//@type boost::shared_ptr<(Pomerol::)?Operator> => OpPtr val
+//@type std::vector<boost::shared_ptr<(Pomerol::)?Operator>.*> => VecOpPtr ptr
+//@type std::map<(Pomerol::)?(Symmetrizer::)?QuantumNumbers, (Pomerol::)?BlockNumber>::iterator|std::_Rb_tree_iterator<std::pair<const Pomerol::Symmetrizer::QuantumNumbers, Pomerol::BlockNumber> ?> => MapQBIt val
+//@type std::map<(Pomerol::)?(Symmetrizer::)?QuantumNumbers, (Pomerol::)?BlockNumber.*> => MapQB ptr
+//@type std::map<(Pomerol::)?BlockNumber, (Pomerol::)?(Symmetrizer::)?QuantumNumbers.*> => MapBQ ptr
+//@type std::pair<(Pomerol::)?BlockNumber, (Pomerol::)?(Symmetrizer::)?QuantumNumbers> => PairBQ val
+typedef struct QN { unsigned long hash; } QN;
+typedef struct OpPtr { struct Operator *p; } OpPtr;
+typedef struct VecOpPtr { unsigned long size; OpPtr scratch; } VecOpPtr;
+struct IndexClassification { unsigned int IndexSize; };
+struct Symmetrizer { VecOpPtr Operations; };
+typedef struct MapQBEntry { BlockNumber second; } MapQBEntry;
+typedef struct MapQB { unsigned long size; BlockNumber slot; MapQBEntry found; } MapQB;
+typedef struct MapQBIt { MapQB *m; int at_end; } MapQBIt;
+typedef struct MapBQ { unsigned long size; } MapBQ;
+typedef struct PairBQ { int unused; } PairBQ;
+//@struct Pomerol::StatesClassification only=Status,StateSize,IndexSize,StatesContainer,StateBlockIndex,QuantumToBlock,BlockToQuantum,IndexInfo,Symm embed=IndexInfo,Symm
 //@function Pomerol::BlockNumber::operator int() const as BlockNumber_conv_int
 //@end
 
@@ -129,7 +148,7 @@ __CPROVER_assigns(n, self->StatesContainer.gvec.scratch)
 __CPROVER_loop_invariant(n <= SCN->gvec.gpos && !VERIF_thrown && block.number == SBI->gval.number)
 __CPROVER_decreases(SCN->gvec.gpos - n)
 //@end
-//@harness h_getInnerState_f enforce=SC_getInnerState_f props=C07,C17 min_obl=430 reach=3 timeout=120
+//@harness h_getInnerState_f enforce=SC_getInnerState_f props=C07,C17 min_obl=430 reach=3 timeout=240
 void h_getInnerState_f(void)
 {
   struct StatesClassification *p; Bitset s;
@@ -200,7 +219,7 @@ void h_getFockStates(void)
 /* ROUND TRIP (C07: "every Fock state ... is recovered from its (block, position) address"): for an arbitrary state s of a
  * classification that satisfies the representation invariant at s:  getFockState(getBlockNumber(s), getInnerState(s)) == s.
  * The three extracted functions run in sequence (no contract replaced). */
-//@harness h_roundtrip enforce=none props=C07 min_obl=405 reach=1 timeout=180
+//@harness h_roundtrip enforce=none props=C07 min_obl=405 reach=1 timeout=300
 void h_roundtrip(void)
 {
   struct StatesClassification sc; struct StatesClassification *self = &sc; Bitset s;
@@ -255,7 +274,6 @@ unsigned long __CPROVER_uninterpreted_act_size(unsigned long, unsigned long);
 unsigned long __CPROVER_uninterpreted_act_first(unsigned long, unsigned long);
 #define ACT_SIZE(s) __CPROVER_uninterpreted_act_size((s).w, (s).size)
 #define ACT_FIRST(s) __CPROVER_uninterpreted_act_first((s).w, (s).size)
-struct Operator;
 _Bool g_found; unsigned long g_found_pos;       /* MONITOR: the first state with a non-empty image, and its position */
 static inline MapFM Operator_actRight_fn(struct Operator *o, Bitset state)
 {
@@ -304,7 +322,7 @@ __CPROVER_loop_invariant(found ==> (result.size > 0 && g_found_pos < SCN->gvec.s
                                     (g_found_pos == SCN->gvec.gpos ==> (g_img_g && result.first.w == g_first_g))))
 __CPROVER_decreases(SCN->gvec.size - state_it.pos + (found ? 0UL : 1UL))
 //@end
-//@harness h_mapsTo enforce=FieldOperator_mapsTo props=C07 min_obl=100 reach=4 timeout=300
+//@harness h_mapsTo enforce=FieldOperator_mapsTo props=C07 min_obl=630 reach=4 timeout=400
 void h_mapsTo(void)
 {
   struct FieldOperator *f; BlockNumber b;
@@ -313,3 +331,147 @@ void h_mapsTo(void)
   REACH("exit");
   if (g_found) REACH("found"); else REACH("all-annihilated");
 }
+
+/* =====================================================================================================================
+ * StatesClassification::compute()  (C07, C17): every one of the 2^IndexSize states gets a valid block index and is appended
+ * exactly once, to that block and to no other.  Stated for the ARBITRARY ghost state g_s; the quantum numbers of a state
+ * are arbitrary here (any symmetry operations, any matrix elements): the partition property does not depend on them.
+ * `1 << IndexSize` is computed in int: pre-condition IndexSize <= 30 (see the remark at the end of this file).
+ * ===================================================================================================================== */
+#undef SBI
+#undef SCN
+#define SBI (&self->StateBlockIndex)
+#define SCN (&self->StatesContainer)
+//@rename VecVecFS_at => VecVecFS_at_mon
+//@tu src/pomerol/StatesClassification.cpp
+//@free make_pair => make_pair_bq
+#define SYM_MAX 1000000UL
+/* quantum numbers: opaque (compared through their hash by Symmetrizer::QuantumNumbers::operator<, the map's comparator) */
+static inline unsigned long VecOpPtr_size(VecOpPtr *v) { return v->size; }
+static inline OpPtr *VecOpPtr_at(VecOpPtr *v, unsigned long i)
+{ __CPROVER_assert(i < v->size, "vector<shared_ptr<Operator>>::operator[]: index < size()"); return &v->scratch; }
+static inline struct Operator *OpPtr_arrow(OpPtr *s) { return s->p; }
+/* virtual Operator::getMatrixElement(bra, ket): ORACLE, any value */
+static inline double Operator_getMatrixElement(struct Operator *o, Bitset bra, Bitset ket) { (void)o; (void)bra; (void)ket; return nondet_double(); }
+static inline _Bool QN_set(QN *q, int pos, double val) { (void)pos; (void)val; q->hash = nondet_ulong(); return 1; }
+static inline unsigned int IndexClassification_getIndexSize(struct IndexClassification *ic) { return ic->IndexSize; }
+static inline VecOpPtr *Symmetrizer_getOperations(struct Symmetrizer *sy) { return &sy->Operations; }
+static inline QN Symmetrizer_getQuantumNumbers(struct Symmetrizer *sy) { QN q; (void)sy; q.hash = nondet_ulong(); return q; }
+
+/* std::map<QuantumNumbers, BlockNumber> QuantumToBlock.  View: the number of keys, and the INVARIANT "the value stored for the
+ * k-th inserted key is k" -- CHECKED by the monitor at every store (BlockNumber_assign through the slot operator[] returned),
+ * USED (assumed) for the value found under an arbitrary key: 0 <= value < size.  Whether a key is present is arbitrary
+ * (the quantum numbers are arbitrary), except that nothing is found in an empty map. */
+BlockNumber *g_qb_slot; unsigned long g_qb_expect;
+static inline MapQBIt MapQB_find(MapQB *m, QN *key)
+{
+  MapQBIt it; it.m = m; (void)key;
+  it.at_end = (m->size == 0) ? 1 : (nondet_bool() ? 1 : 0);
+  if (!it.at_end) {
+    m->found.second.number = nondet_int();
+    /* ASSUMED: the invariant checked at every store (see above) */
+    __CPROVER_assume(m->found.second.number >= 0 && (unsigned long)m->found.second.number < m->size);
+    REACH("known-qn");
+  } else REACH("new-qn");
+  return it;
+}
+#define MapQB_end(m_) ((MapQBIt){ (m_), 1 })
+#define op_eq_MapQBIt_MapQBIt(a, b) ((a)->at_end == (b)->at_end)
+static inline MapQBEntry *MapQBIt_arrow(MapQBIt *it)
+{ __CPROVER_assert(!it->at_end, "map iterator dereferenced before end()"); return &it->m->found; }
+static inline BlockNumber *MapQB_at(MapQB *m, QN *key)      /* operator[] for a key that find() did not find: inserts it */
+{ (void)key; g_qb_expect = m->size; m->size++; g_qb_slot = &m->slot; return &m->slot; }
+static inline BlockNumber *BlockNumber_assign(BlockNumber *dst, BlockNumber src)
+{
+  if (dst == g_qb_slot)
+    __CPROVER_assert(src.number >= 0 && (unsigned long)src.number == g_qb_expect, "C07: the block number stored for the k-th new quantum-number key is k");
+  *dst = src;
+  return dst;
+}
+#define make_pair_bq(a_, b_) ((PairBQ){ 0 })
+static inline void MapBQ_insert(MapBQ *m, PairBQ p) { (void)p; m->size++; }
+static inline BlockNumber BlockNumber_ctor1(int n) { BlockNumber b; b.number = n; return b; }
+//@function Pomerol::BlockNumber::operator++(int) as BlockNumber_postinc_real
+//@end
+#define BlockNumber_postinc(b_) BlockNumber_postinc_real((b_), 0)      /* the printer drops the dummy int of a postfix call */
+
+/* MONITORS of the appends */
+unsigned long g_s;                 /* the ghost state (its label) */
+unsigned long g_hits;              /* how often the ghost state has been appended to any block */
+unsigned long g_hit_block;         /* ... and to which block */
+unsigned long g_last_block;        /* block selected by the most recent StatesContainer[..] */
+static inline VecFS *VecVecFS_at_mon(VecVecFS *v, unsigned long i)
+{
+  __CPROVER_assert(i < v->size, "vector<vector<FockState>>::operator[]: index < size()");
+  g_last_block = i;
+  return &v->scratch;
+}
+static inline VecFS VecFS_ctor1(unsigned long n) { VecFS v; v.size = n; v.gpos = NOPOS; v.has_excl = 0; v.has_bits = 0; return v; }
+static inline void VecVecFS_push_back(VecVecFS *v, VecFS x) { (void)x; v->size++; }
+static inline void VecFS_push_back(VecFS *v, Bitset state)
+{
+  (void)v;
+  if (state.w == g_s) { g_hits++; g_hit_block = g_last_block; REACH("ghost-appended"); }
+}
+static inline void VecBN_push_back(VecBN *v, BlockNumber b) { if (v->size == v->gidx) v->gval = b; v->size++; }
+
+#define GHOST_DONE (g_hits == 1 && SBI->gval.number >= 0 && (unsigned long)SBI->gval.number == g_hit_block && g_hit_block < SCN->size)
+//@function Pomerol::StatesClassification::compute() as SC_compute
+//@contract
+__CPROVER_requires(__CPROVER_is_fresh(self, sizeof(*self)) && !VERIF_thrown)
+/* a constructed, not yet computed object: all containers empty */
+__CPROVER_requires(self->Status < Computed ==> (SBI->size == 0 && SCN->size == 0 && self->QuantumToBlock.size == 0 && self->BlockToQuantum.size == 0))
+/* TYPE INVARIANT / OBLIGATION on the caller: at most 30 single-particle indices (1 << IndexSize is an int) */
+__CPROVER_requires(self->IndexInfo.IndexSize <= 30 && self->Symm.Operations.size <= SYM_MAX)
+__CPROVER_requires(SBI->gidx == g_s && g_hits == 0)
+__CPROVER_assigns(self->Status, self->IndexSize, self->StateSize, self->StateBlockIndex, self->StatesContainer, self->QuantumToBlock, self->BlockToQuantum,
+                  g_hits, g_hit_block, g_last_block, g_qb_slot, g_qb_expect)
+__CPROVER_ensures(!VERIF_thrown && self->Status >= Computed)
+__CPROVER_ensures(__CPROVER_old(self->Status) < Computed ==> (self->IndexSize == self->IndexInfo.IndexSize && self->StateSize == (1UL << self->IndexSize) && SBI->size == self->StateSize))
+/* the ghost state: a valid block index; appended exactly once, to that block */
+__CPROVER_ensures((__CPROVER_old(self->Status) < Computed && g_s < self->StateSize) ==> GHOST_DONE)
+//@loop 1
+__CPROVER_assigns(FockStateIndex, block_index, self->StateBlockIndex, self->StatesContainer, self->QuantumToBlock, self->BlockToQuantum,
+                  g_hits, g_hit_block, g_last_block, g_qb_slot, g_qb_expect)
+__CPROVER_loop_invariant(FockStateIndex <= self->StateSize && self->StateSize == (1UL << self->IndexSize) && self->IndexSize <= 30 && NOperations >= 0)
+__CPROVER_loop_invariant(SBI->size == FockStateIndex && SBI->gidx == g_s && self->BlockToQuantum.size <= FockStateIndex)
+__CPROVER_loop_invariant(block_index.number >= 0 && (unsigned long)block_index.number == SCN->size && SCN->size == self->QuantumToBlock.size && SCN->size <= FockStateIndex)
+__CPROVER_loop_invariant(g_s < FockStateIndex ? GHOST_DONE : g_hits == 0)
+__CPROVER_decreases(self->StateSize - FockStateIndex)
+//@loop 2
+__CPROVER_assigns(n, QNumbers)
+__CPROVER_loop_invariant(0 <= n && n <= NOperations)
+__CPROVER_decreases(NOperations - n)
+//@end
+//@harness h_SC_compute enforce=SC_compute props=C07,C17 min_obl=780 reach=4 timeout=180
+void h_SC_compute(void)
+{
+  struct StatesClassification *p;
+  VERIF_thrown = 0; g_hits = 0; g_s = nondet_ulong();
+  SC_compute(p);
+  REACH("exit");
+}
+
+/* ---------------------------------------------------------------------------------------------------------------------
+ * REMARK (C17, `1 << IndexSize`): compute() evaluates `1<<IndexSize` in int and nothing in pomerol bounds IndexSize.
+ * With the pre-condition relaxed to IndexSize <= 33 the harness h_SC_compute fails SC_compute.overflow.1 ("arithmetic
+ * overflow on signed shl", IndexSize == 31) and SC_compute.undefined-shift.2 (IndexSize >= 32).  IndexSize <= 30 is
+ * therefore a pre-condition of compute() that the callers (the user's lattice) must meet; it is not checked at run time.
+ * REMARK: getFockStates(BlockNumber) indexes StatesContainer without any test of its argument (contract: pre-condition).
+ *
+ * MUTATION LOG (scratch copy of /repo, one textual change each; all killed):
+ *  pre-fix 58a0a52^ (`> StateSize`)          h_getBlockNumber_q/_f: VecBN_at.assertion.1 (index StateSize read) + postcondition.1;
+ *                                            h_getInnerState_f: postcondition.1/.2, VecVecFS_at.assertion.1; h_getInnerState_q: postcondition.1,
+ *                                            SC_getInnerState_f.precondition.2
+ *  getInnerState: `return n` -> `return n+1`                    SC_getInnerState_f.postcondition.2
+ *  getFockState: `int(in) <` -> `<=`                            SC_getFockState.postcondition.1, VecVecFS_at.assertion.1
+ *  getFockState: `m <` -> `m <=`                                SC_getFockState.postcondition.2, VecFS_at.assertion.1
+ *  getFockState: `[in][m]` -> `[in][0]` (h_roundtrip)           h_roundtrip.assertion.2
+ *  mapsTo: drop `&& !found`                                     FieldOperator_mapsTo_wrapped_for_contract_checking.5-8 (loop step checks)
+ *  mapsTo: return RightIndex instead of the image's block       FieldOperator_mapsTo.postcondition.3
+ *  mapsTo: `size()>0` -> `size()>1`                             FieldOperator_mapsTo_wrapped_for_contract_checking.5/.6
+ *  compute: new block: StateBlockIndex.push_back(0)             SC_compute.loop_invariant_step.8
+ *  compute: drop block_index++                                  SC_compute.loop_invariant_step.7
+ *  compute: known block: extra StatesContainer[0].push_back     SC_compute.loop_invariant_step.8
+ *  compute: loop from FockStateIndex=1                          SC_compute.postcondition.2/.3, loop_invariant_base.4
+ * ------------------------------------------------------------------------------------------------------------------- */
